@@ -80,8 +80,12 @@ func VerifC18_CanaryStyleFinalize() {
 		return
 	}
 	verifrt.Cover("finalize-done")
+	// a read that failed with anything but NotFound is never turned into "done" (C06: the step is retried instead)
+	verifrt.Assert(ctl.stableBuild != 2 && ctl.canaryBuild != 2, "C06.canarystyle.plane.failedReadIsReported")
 	s, d := ctl.index("stable.Finalize"), ctl.index("canary.Delete")
 	verifrt.Assert(s >= 0 && !ctl.stableFinalizeErr, "C18.canarystyle.finalize.doneOnlyAfterStableReleased")
 	verifrt.Assert(d >= 0 && !ctl.canaryDeleteErr, "C18.canarystyle.finalize.doneOnlyAfterCanaryDeploymentsReleased")
 	verifrt.Assert(s < d, "C18.canarystyle.finalize.stableBeforeCanary")
 }
+
+func VerifC06_CanaryStylePlaneFailedReadIsNeverSuccess() { VerifC18_CanaryStyleFinalize() }
